@@ -44,7 +44,7 @@ type program struct {
 }
 
 func genProgram(rng *lib.Rng, label string, nTx, nStmts int, big bool, counts map[string]int) *program {
-	g := &gen{rng: rng, big: big, counts: counts}
+	g := &gen{rng: rng, big: big, counts: counts, hugeLeft: 3}
 	p := &program{label: label}
 	for i := 0; i < nTx; i++ {
 		p.txs = append(p.txs, g.transaction(nStmts/2+rng.Intn(nStmts)))
@@ -146,7 +146,7 @@ func main() {
 	cw := &lib.CaseWriter{Dir: *dir, Prefix: "cases_C05", Header: "From CV Require Import C05.Cases.",
 		ElemType: "list stmt * list tv", CheckFn: "check_prog", PerFile: 4}
 	sum.Rule = "a case = one generated program of 2-4 transactions (10-40 statements each) over nested struct/array/dictionary values " +
-		"(struct S with Int, [Int], [[Int]], {Int: [Int]}, nested struct, [struct] fields; [S]; {Int: S}; some arrays of 40-200 elements so that " +
+		"(struct S with Int, [Int], [[Int]], {Int: [Int]}, nested struct, [struct] fields; [S]; {Int: S}; some arrays of 40-200 elements and some Int leaves of 2^600..2^7000 (non-inlinable scalars inside small containers) so that " +
 		"containers are not inlined): copies by declaration, assignment, argument+return, setter/element/dictionary write, append/insert, container " +
 		"literal / constructor, storage save/load/copy (also across transactions), callee parameter, loop variable; mutations directly at depth 0-4 " +
 		"and through ephemeral and storage references; every variable and storage slot is logged at the end of each transaction and at random points; " +
